@@ -731,7 +731,7 @@ func main() {
 	}
 
 	cfg := &packages.Config{Mode: packages.LoadAllSyntax, Dir: *repo, BuildFlags: []string{"-tags=verif"}, Env: os.Environ()}
-	pkgs, err := packages.Load(cfg, "./admission", "./cmd/webhook/server", "./policy", "./api", "./metrics")
+	pkgs, err := packages.Load(cfg, "./admission", "./cmd/webhook/server", "./policy", "./api", "./metrics", "./admission/api", "./admission/api/load", "./admission/api/validation")
 	if err != nil {
 		fmt.Fprintln(os.Stderr, err)
 		os.Exit(1)
@@ -946,9 +946,10 @@ end PSA.Generated
 	// ---- F9: writes to state that outlives a request: through a method receiver, or into a package-level map / struct /
 	// sync primitive (F8 only sees a direct store to the variable itself)
 	var stateWrites []string
-	for _, path := range []string{mod + "admission", mod + "cmd/webhook/server", mod + "api", mod + "policy"} {
+	for _, path := range []string{mod + "admission", mod + "cmd/webhook/server", mod + "api", mod + "policy", mod + "admission/api", mod + "admission/api/load", mod + "admission/api/validation"} {
 		p := ssaBy[path]
 		if p == nil {
+			fail("F9: package %s not loaded", path)
 			continue
 		}
 		short := path[len(mod):]
